@@ -28,6 +28,17 @@ type StrV struct {
 	S      string  // valid when Sym == nil
 	Sym    []*Term // 8-bit terms when any byte is symbolic
 	Opaque bool    // produced by a formatting stub: content and length unknown, must not be inspected
+	// NonEmpty (only with Opaque): the string is known to have at least one byte (a literal
+	// character of the format, or a non-empty operand of a concatenation), so s == "" is decided.
+	NonEmpty bool
+}
+
+// knownNonEmpty: the string certainly has length > 0.
+func (s StrV) knownNonEmpty() bool {
+	if s.Opaque {
+		return s.NonEmpty
+	}
+	return s.Len() > 0
 }
 
 type ArrayV []Value
@@ -192,7 +203,7 @@ func (in *Interp) zero(t types.Type) Value {
 	case *types.Signature:
 		return (*ClosureV)(nil)
 	case *types.Chan:
-		return nil
+		return (*ChanV)(nil)
 	case *types.Struct:
 		s := make(StructV, u.NumFields())
 		for i := range s {
